@@ -6,22 +6,6 @@ import MpVerif.C18.GenTypes
 namespace MpVerif.C18.Frozen
 open MpVerif.C18
 
-def helperShape_CallExpr_arg : Sx :=
-  .n "CXXMethodDecl" "" [
-   .n "ParmVarDecl" "index : int" [],
-   .n "CompoundStmt" "" [
-    .n "CXXStaticCastExpr" "void" [
-     .n "IntegerLiteral" "0" []],
-    .n "ReturnStmt" "" [
-     .n "CallExpr" "" [
-      .n "DeclRefExpr" "Create" [],
-      .n "ArraySubscriptExpr" "" [
-       .n "MemberExpr" "args" [
-        .n "CXXMemberCallExpr" "" [
-         .n "MemberExpr" "impl" [
-          .n "CXXThisExpr" "" []]]],
-       .n "DeclRefExpr" "index" []]]]]]
-
 def helperShape_CallExpr_function : Sx :=
   .n "CXXMethodDecl" "" [
    .n "CompoundStmt" "" [
